@@ -442,6 +442,9 @@ def search_pinned(ctx, r):
     name = str(r.choice(list(AT.ATOMS)))
     xt, sign, quad, outk, dom, cone, build, npf = AT.ATOMS[name]
     ops = [o for o in gen_chain(r, allow_zero=False)][:4]
+    if r.random() < 0.25:
+        # the atom scaled by zero somewhere in the chain: what is written is the affine rest (both sides are then admissible)
+        ops = ops[:2] + [['scale', '0', str(r.choice(['L', 'R']))]] + ops[2:3] + [['add', '3', '1']]
     m = ro.Model(); x = m.dvar(3); w = m.dvar(); t = m.dvar()
     x0 = r.choice([-1., 0., 0.5, 1.], 3); w0 = float(r.choice([-1., 0., 2.]))
     seed = int(r.integers(2 ** 31))
@@ -461,6 +464,8 @@ def search_pinned(ctx, r):
     except C.SkipCase:
         ctx.count('search:skipped'); return
     except Exception as ex:
+        if any(o[0] == 'scale' and o[1] == '0' for o in ops):
+            ctx.hit('zero-scaled-atom-crashes-do_math', {"error": type(ex).__name__ + ': ' + str(ex)[:120]}, case); return
         ctx.count('search:error:' + type(ex).__name__); return
     if abs(val - target) > 2e-4 * (1 + abs(target)):
         ctx.hit('pinned-evaluation-mismatch', {"solver_value": float(val), "numpy_value": target}, case)
